@@ -6,10 +6,10 @@ import solvercorr as sc
 import solverslices
 from props.c04 import TRUSTED
 
-THEOREMS = ["C03_flux_sum", "C03_source_mean", "C03_conc_sum", "C03_footprint_mass"]
+THEOREMS = ["C03_flux_sum", "C03_source_mean", "C03_conc_sum", "C03_footprint_mass", "C03_halo_is_padding", "C03_padded_request_geometry"]
 ASSUMPTIONS = [
     "theorems are for double-precision storage and the full periodic domain (halo observed through explicit padding with halo=0)",
-    "the clause 'halo of width h == zero-padding by int(h/dx) cells + crop' is NOT a theorem yet (C03_halo_is_padding_partial): it is carried by the correspondence (the model pads by construction) and by the pad/crop oracle on the real code",
+    "halo == padding is a theorem for footprint mode (any measurement point) and dispersion mode with the measurement point at the origin (re-centring depends on the domain extent)",
     "'integral of dz/Kz' is the trapezoidal sum the code accumulates (numerical) or h/Kz (analytic); convergence of the trapezoid to the integral is not part of the theorem",
 ]
 
